@@ -9,16 +9,16 @@ CHECKS = {
  "C01": ("proptest generated source trees; oracle: independent text-splice model + reassembly of cold / warm / after-map() chunk streams",
          "Generated-input search (multi-byte trees, wild sorted maps, replacement pools incl. beyond-end) against a reference model of source(); every chunk of every stream must carry text and the chunks must reassemble. Exploration: shows the property on every generated tree and history, not on all.",
          "Trusts the harness's splice model (spec::splice_text) and its tree builder; known finding W2 (char vs byte columns) is tolerated only in its exact shape."),
- "C02": ("proptest generated ASCII trees; oracle: true (line, column) of every byte from a scan of the reference text, in all four (columns, final_source) modes",
+ "C02": ("proptest generated ASCII trees; oracle: true (line, column) of every byte from a scan of the reference text, in all four (columns, final_source) modes, on fresh objects and on one object cold / warm / after map(); thorough: libFuzzer+ASan target tree_c02 (bytes -> tree -> same oracle)",
          "Every reported chunk position and the returned end information are compared with positions computed from the reference text; final-source mode is reached through the verif::map_options hook.",
          "Trusts observe::positions and the reference text model."),
- "C03": ("proptest generated ASCII trees; differential: normal-mode chunk stream vs map() decoded by the harness's own VLQ decoder, per byte / per line",
+ "C03": ("proptest generated ASCII trees; differential: normal-mode chunk stream vs map() decoded by the harness's own VLQ decoder, per byte / per line; thorough: libFuzzer+ASan target tree_c03",
          "Two code paths of the crate (normal streaming and final-source streaming + encoder) are compared on every byte of every generated tree, each on a fresh object.",
          "Trusts model::vlq::decode; K1 (SourceMapSource::map pass-through) is a listed known finding."),
- "C04": ("proptest generated trees over Raw/Original/Concat/Replace/Cached; oracle: independent byte-provenance model and tokenizer",
+ "C04": ("proptest generated trees over Raw/Original/Concat/Replace/Cached; oracle: independent byte-provenance model and tokenizer, on a fresh object and on one object asked twice; thorough: libFuzzer+ASan target tree_c04",
          "map() is checked against ground truth computed without looking at the crate's chunking (where each output byte was copied from).",
          "Trusts model::prov (tokenizer written from the documented regular expression)."),
- "C05": ("proptest generated call histories (mutators interleaved with 13 observers); oracle: reference replacement model + unobserved twin",
+ "C05": ("proptest generated call histories (mutators interleaved with 13 observers, fork / switch over live clones; legs of <=12, 22-48 and 190-280 ops); oracle: reference replacement model + unobserved twin; thorough: libFuzzer+ASan target hist_c05",
          "Stateful/model-based: after every observer the answer equals the stable-sort splice model; final state equals an unobserved twin (==, hash, text). A second leg uses >20 colliding replacements so that an unstable sort is observable.",
          "Trusts spec::splice_text."),
  "C06": ("proptest generated composites over SourceMapSource-rich children; differential child-alone vs child-in-ConcatSource, and an attribution model of the ReplaceSource splice",
@@ -33,37 +33,37 @@ CHECKS = {
  "C09": ("proptest generated (outer map, inner map) pairs; oracle: reference composition over the generated segment lists",
          "Per-byte comparison of map() with a composition written from the statement (inner chunk located by the reference splitter).",
          "Trusts model::lookup::ref_chunks and the composition oracle in props/c09.rs; one detail (name compared with empty string on a missing line) is taken from the code."),
- "C10": ("proptest generated call histories over a CachedSource and two clones; oracle: never-cached twin built fresh from the same Spec",
+ "C10": ("proptest generated call histories over a CachedSource and two clones; oracle: never-cached twin built fresh from the same Spec; thorough: libFuzzer+ASan target hist_c10",
          "Stateful: after every call the answer equals the wrapped source's (text, bytes, size, end info, per-byte attribution); repeated map() calls must return the identical value.",
          "Attribution, not chunk lists, is compared (replay legitimately coarsens chunks)."),
- "C11": ("proptest generated ASCII trees; validity predicates over every produced map and chunk stream",
+ "C11": ("proptest generated ASCII trees; validity predicates over every produced map and chunk stream, on fresh objects and on one object asked twice; thorough: libFuzzer+ASan target tree_c11",
          "Sortedness, range, alphabet and index-table predicates over map() for both column settings and over the announcement protocol in all four streaming modes.",
          "Trusts model::vlq::decode; K1 pass-through is a listed known finding."),
- "C12": ("proptest generated mapping sequences + exhaustive enumeration of all single-field deltas + independently spelled strings; oracle: independent base64-VLQ encoder/decoder",
+ "C12": ("proptest generated mapping sequences + exhaustive enumeration of all single-field deltas, of short sequences and of strings of common segments + independently spelled strings; oracle: independent base64-VLQ encoder/decoder; thorough: libFuzzer+ASan target codec",
          "Round trip, drop rule, re-encoding, line-only rule and decoder agreement with an independent implementation of the v3 format; all deltas of magnitude < 2^16 (quick) / 2^20 (thorough) of every field are enumerated.",
          "Trusts model::vlq."),
- "C13": ("proptest generated triples of trees; metamorphic relations (regrouping, neutral elements, wrappers), each side on fresh objects",
-         "19 law instances per triple compared on text and per-byte attribution from map() and from the chunk stream.",
+ "C13": ("proptest generated triples of trees; metamorphic relations (regrouping, neutral elements, wrappers), each side on fresh objects and on one object asked repeatedly; thorough: libFuzzer+ASan target triple_c13",
+         "20 law instances per triple compared on the text views and on per-byte attribution from map() and from the chunk stream.",
          "The 'only empty replacements' law is read together with C06 (the column may be refined)."),
- "C14": ("proptest generated pairs (same Spec or one edit apart) with observer histories on one operand; metamorphic: ==, hash and observers before/after",
+ "C14": ("proptest generated pairs (same Spec or one edit apart) with observer histories on one operand, x optionally observed while under construction, pairs of maps sharing their payload; metamorphic: ==, hash and observers before/after; thorough: libFuzzer+ASan target pair_c14",
          "Equality/hash/clone coherence and history independence over every source type, typed and dyn.",
          "For trees containing a CachedSource, maps and streams are compared by attribution (C10's notion) rather than verbatim."),
- "C15": ("proptest generated SourceMap values and harness-written JSON documents; oracle: serde_json as independent parser",
+ "C15": ("proptest generated SourceMap values and harness-written JSON documents; oracle: serde_json as independent parser; writers taking 1 / 7 / 4096 bytes per call; thorough: libFuzzer+ASan target json",
          "to_json/to_writer output parsed by an independent parser; three parser entry points compared with each other and with the reference reading.",
          "Trusts serde_json."),
- "C16": ("proptest generated rope construction programs + exhaustive enumeration of small programs; oracle: flat String model",
+ "C16": ("proptest generated rope construction programs + exhaustive enumeration of small programs; oracle: flat String model (incl. byte_slice_unchecked inside its precondition and the iterators through std adaptors); thorough: libFuzzer+ASan target rope_prog",
          "Every observer of Rope compared with the String it stands for; all slice ranges of every generated rope; std's UB checks on (checked profile).",
          "Trusts model::rope_prog."),
  "C17": ("proptest generated mappings strings, mutated JSON bytes and wild source trees on two build profiles; thorough: libFuzzer+ASan targets decode/json/tree_prog; oracle: totality (no panic, parsers agree on accept/reject)",
          "Every public entry point is driven with in-domain but hostile input on the overflow-checked build and again on the release-semantics build; coverage-guided campaigns extend the byte-level legs in the thorough tier.",
          "A watchdog (300 s per case) turns a hang into exit 2 (inconclusive), never into a violation; known finding W2 is tolerated only in its exact shape and signature."),
- "C18": ("generated (program, schedule) pairs under a harness-owned cooperative scheduler driven through cfg-guarded schedule points; random schedules plus exhaustive enumeration of all schedules with <=2 preemptions per generated program; oracle: single-threaded twin, deadlock detection, write-once cache hook",
+ "C18": ("generated (program, schedule) pairs under a harness-owned cooperative scheduler driven through cfg-guarded schedule points; random schedules plus exhaustive enumeration of all schedules with <=2 preemptions per generated program; an unscheduled really-parallel leg; shared trees built cold or stale; oracle: single-threaded twin, deadlock detection, write-once cache hook + identity of handed-out maps; thorough: libFuzzer+ASan target sched_prog",
          "The schedule is the generated input: real threads run strictly one at a time and switch only at the library's shared-state accesses, lock acquisitions and callbacks into a user-defined child source. Exhaustive for the bounded-preemption schedules of each explored program, exploration over programs.",
          "Atomicity is assumed below the granularity of the schedule points (inside DashMap, OnceLock, Mutex, Arc); weak-memory reorderings are out of reach (the crate uses SeqCst and locks only)."),
  "C19": ("the generators of C16, C01/C17 and C18 run with guarded precondition assertions before each of the 14 unsafe operations, std's unsafe-precondition checks, on two build profiles; thorough: libFuzzer targets rope_prog / tree_prog under AddressSanitizer",
          "Every generated program respected every stated precondition; borrowed chunks, names and contents are kept until the stream call returned (and, for schedules, until all threads finished) and then read.",
          "Absence of undefined behaviour is not established by testing; Miri is outside this technique family and not used."),
- "C20": ("proptest generated one-edit pairs filtered by an observable difference; cross-process / cross-thread hash comparison",
+ "C20": ("proptest generated one-edit pairs and shared-payload pairs filtered by an observable difference (maps compared as JSON text); cross-process / cross-thread hash comparison",
          "Hash sensitivity to every ingredient at every depth, and reproducibility of the hash in a freshly spawned process.",
          "A single 64-bit collision would be reported as such (second hasher)."),
 }
@@ -109,7 +109,7 @@ m = {
         "name": "vcheck",
         "path": "/verif/harness",
         "serves_properties": [c["property_id"] for c in checks],
-        "kind_free_text": "proptest-driven property checks (generators, reference models, shrinking, replay files, evidence) in one binary; cargo-fuzz targets under harness/fuzz for the byte-level properties",
+        "kind_free_text": "proptest-driven property checks (generators, reference models, shrinking, replay files, evidence) in one binary; 14 cargo-fuzz targets under harness/fuzz (byte-level and structure-decoding, the props' check functions as in-target oracles) as thorough stages",
     }],
     "checks": checks,
     "not_applicable": na,
